@@ -14,6 +14,7 @@ import ast
 
 from sa import mutate as M
 from sa import pattern as PT
+from sa import values as VX
 from sa.ctx import Ctx
 from sa.loader import AnalysisError, call_name, norm, own_nodes, parent
 from sa.ranges import has, has_bound, refusal_constraints
@@ -77,7 +78,8 @@ def rule_on_curve(ctx: Ctx, rep: Report) -> None:
     rep.ob(rule, "require_on_curve:refuses", any(c.op == "falsy" and "is_on_curve" in c.subject for c in refusal_constraints(ctx, roc)), roc.where(), "raises unless is_on_curve")
     ioc = ctx.func(f"{CG}.CurveGroup.is_on_curve")
     txt = PT.text(ioc)
-    rep.ob(rule, "is_on_curve:equation", "self._y2(Q[0]) == Q[1] * Q[1] % self.p" in txt, ioc.where(), "y^2 == x^3 + ax + b (mod p)")
+    vx = VX.of(ioc)
+    rep.ob(rule, "is_on_curve:equation", vx.anywhere("self._y2($$Q[0]) == $$Q[1] * $$Q[1] % self.p") or vx.anywhere("self._y2($$Q[0]) == pow($$Q[1], 2, self.p)") or vx.anywhere("self._y2($$Q[0]) == $$Q[1] ** 2 % self.p"), ioc.where(), "y^2 == x^3 + ax + b (mod p)")
     rep.ob(rule, "is_on_curve:y_range", any(c.subject == "Q[1]" for c in refusal_constraints(ctx, ioc)), ioc.where(), "y outside 1..p-1 refused (0 is infinity)")
     bp = ctx.func("btclib.curves.sec_point.bytes_from_point")
     rep.ob(rule, "bytes_from_point", bool(ctx.calls_to(bp, "require_on_curve", last=True)), bp.where(), "a point is validated before it is serialized")
@@ -329,7 +331,10 @@ def rule_refuse_arith(ctx: Ctx, rep: Report) -> None:
     rep.ob(rule, "mod_inv_var", ok, mi.where(), "pow(a, -1, m): no inverse becomes a BTClibValueError")
     m2 = ctx.func(f"{NT}.mod_inv")
     txt = PT.text(m2)
-    rep.ob(rule, "mod_inv:blinding", "b = 1 + secrets.randbelow(m - 1) if m > 1 else 1" in txt and "mod_inv_var(a * b % m, m) * b % m" in txt, m2.where(), "blinded by a non-zero random factor, unblinded by the same")
+    vx = VX.of(m2)
+    bb: dict[str, str] = {}
+    rep.ob(rule, "mod_inv:blinding", (vx.anywhere("mod_inv_var(a * $$b % m, m) * $$b % m", bb) or vx.anywhere("mod_inv_var($$b * a % m, m) * $$b % m", bb)) and "randbelow(m - 1)" in bb.get("$$b", "") and ("1 + " in bb["$$b"] or "+ 1" in bb["$$b"]),
+           m2.where(), "blinded by a non-zero random factor, unblinded by the same")
     rep.ob(rule, "mod_inv:fallback_refuses", "except BTClibValueError: return mod_inv_var(a, m)" in txt, m2.where(), "a blinded failure is re-asked unblinded (so a true non-invertible still raises)")
     for q in (f"{NT}.mod_sqrt_var", f"{NT}.tonelli_var"):
         fi = ctx.func(q)
@@ -360,7 +365,8 @@ def rule_sec_prefix(ctx: Ctx, rep: Report) -> None:
     g = ctx.cfg(pf)
     rep.ob(rule, "other_prefix_refused", g.path_avoiding([g.exit_return], [i for n in g.nodes if n.kind == "test" and norm(n.ast) in ("prefix in {2, 3}", "prefix == 4", "prefix in {6, 7}") for i in [n.id]]) is None, pf.where(), "no return without a prefix test")
     txt = PT.text(pf)
-    rep.ob(rule, "parity_selects_y", "y_Q if prefix == 2 else ec.p - y_Q" in txt, pf.where(), "0x02 = even y, 0x03 = odd y")
+    vx = VX.of(pf)
+    rep.ob(rule, "parity_selects_y", vx.anywhere("$$y if $$prefix == 2 else ec.p - $$y") or vx.anywhere("ec.p - $$y if $$prefix == 3 else $$y"), pf.where(), "0x02 = even y, 0x03 = odd y")
     rep.ob(rule, "uncompressed_on_curve", "require_on_curve" in txt or "is_on_curve" in txt, pf.where(), "an uncompressed point is checked against the curve")
     hy = [n for n in own_nodes(pf.node) if isinstance(n, ast.If) and "hybrid" in norm(n.test) and "% 2" in norm(n.test) or (isinstance(n, ast.Compare) and "prefix" in norm(n) and "% 2" in norm(n))]
     rep.ob(rule, "hybrid_parity", bool(hy) or ("prefix & 1" in txt or "prefix % 2" in txt), pf.where(), "a hybrid prefix's parity must match y")
